@@ -772,7 +772,7 @@ impl C08Onchain {
                         w += 77 + match u { None => 33u128, Some(l) => l.iter().map(|x| 1 + *x as u128).sum() };
                     }
                 }
-                if env.cfg.max_feerate < u32::MAX && w > 0 && (nb * 1000 + 999) / w > env.cfg.max_feerate as u128 {
+                if w > 0 && (nb * 1000 + 999) / w > env.cfg.max_feerate as u128 {
                     co.violations.push(Violation {
                         kind: "onchain-fee-exceeds-bound".into(),
                         desc: format!("accepted: inputs {} - beneficial {} = {} sat over weight {} is {} sat/kw > max {}", sum_in, ben, nb, w, (nb * 1000 + 999) / w, env.cfg.max_feerate),
@@ -960,7 +960,7 @@ fn gen_tx(rng: &mut Rng, cfg: &Cfg, now: u64) -> TxSpec {
     // `non_beneficial_sat * 1000` overflowing while the node state lock is held makes the `defer!` in
     // check_onchain_tx panic again during unwinding, which aborts the process (cannot be caught): keep the
     // inputs below u64::MAX/1000 whenever the fee-range check cannot refuse first (see notes/C08-C09.md)
-    let fee_check_refuses = !cfg.dev && cfg.filter_bits()[9] && cfg.max_feerate < u32::MAX;
+    let fee_check_refuses = !cfg.dev && cfg.filter_bits()[9];
     if !fee_check_refuses {
         total = total.min(u64::MAX as u128 / 1000 - 2000);
     }
@@ -994,6 +994,8 @@ impl Group for C08Onchain {
             c("node 333333;0;d;n;-;- 1000000000 d|tx 333333;0;d;n;-;- 1600000000 2 0 1 1 5000000:w N 2 1:3000000:1:0:1:r W/1/w@1=1999000,C0@-=3000000"),
             // F5 witness shape: ~25.8 BTC of "fee" wrapped to a small feerate before the saturating fix
             c("node 333333;0;d;n;-;- 18446744073709551615 u|tx 333333;0;d;n;-;- 1600000000 2 0 1 1 2580000000:w N 1 - W/1/w@1=1000"),
+            // max_feerate_per_kw = u32::MAX is a real bound since the exact u128 comparison (fix 3751e9c)
+            c("node 4294967295;0;d;n;-;- 18446744073709551615 u|tx 4294967295;0;d;n;-;- 1600000000 2 0 1 1 10000000000000000:w N 1 - W/1/w@1=1000"),
             // unknown output next to a wallet output, through the approver (declines)
             c("node 333333;0;d;n;F/1/w;- 1000000000 d|tx 333333;0;d;n;F/1/w;- 1600000000 2 2 1 1 100000:w N 3 - W/1/w@1=50000,F/2/w@-=20000,F/1/w@-=29000"),
             // inbound / pushed / not yet counter-signed channels
